@@ -63,7 +63,15 @@ def make_case(seed: int, tier: str, prop: str, opts=None) -> Dict[str, Any]:
         sc["config"]["lazy"] = True
     k = opts.get("schedules", 3 if tier == "quick" else 6)
     scheds = [gen.gen_schedule(seed, sc, j) for j in range(k)]
-    return {"scenario": sc, "schedules": scheds}
+    case = {"scenario": sc, "schedules": scheds}
+    if prop == "C10" and fam == 15 and not force and len(sc["sims"]) >= 2:
+        # a simulator fails inside one of its steps: while run() unwinds, nobody it feeds into it may
+        # be released (the steps it never finished stay outstanding)
+        import random as _r
+        rng = _r.Random(h64(seed, "c10fault"))
+        case["faults"] = [{"sid": rng.choice(sc["sims"])["sid"], "req": rng.choice([1, 2, 3, 4, 5, 6, 7, 8]),
+                           "phase": "pre", "kind": "raise"}]
+    return case
 
 
 def group_relation(rm: RM, u, v):
